@@ -326,12 +326,15 @@ fn size_check(f: &syn::ItemFn) -> Option<(i128, String)> {
     })
 }
 
-/// address literal inside a singleton `get()`: first integer literal that is cast to a pointer
-fn first_cast_literal(b: &syn::Block) -> Option<(i128, usize)> {
-    // returns (address, number of dereferences `*` applied in the body)
+/// address literal inside an accessor body: the first integer literal that is cast to a pointer
+/// type; returns (address, number of `*` dereferences in the body, the pointer type it is cast
+/// to, whether `.as_mut()` is called)
+fn first_cast_literal(b: &syn::Block) -> Option<(i128, usize, Value, bool)> {
     struct V {
         addr: Option<i128>,
+        cast: Value,
         derefs: usize,
+        as_mut: bool,
     }
     impl<'ast> syn::visit::Visit<'ast> for V {
         fn visit_expr_cast(&mut self, c: &'ast syn::ExprCast) {
@@ -339,6 +342,7 @@ fn first_cast_literal(b: &syn::Block) -> Option<(i128, usize)> {
                 if let Some(n) = lit_int(&c.expr) {
                     if matches!(&*c.ty, Type::Ptr(_)) {
                         self.addr = Some(n);
+                        self.cast = ty(&c.ty);
                     }
                 }
             }
@@ -350,10 +354,16 @@ fn first_cast_literal(b: &syn::Block) -> Option<(i128, usize)> {
             }
             syn::visit::visit_expr_unary(self, u);
         }
+        fn visit_expr_method_call(&mut self, m: &'ast syn::ExprMethodCall) {
+            if m.method == "as_mut" {
+                self.as_mut = true;
+            }
+            syn::visit::visit_expr_method_call(self, m);
+        }
     }
-    let mut v = V { addr: None, derefs: 0 };
+    let mut v = V { addr: None, cast: json!({"k": "none"}), derefs: 0, as_mut: false };
     syn::visit::visit_block(&mut v, b);
-    v.addr.map(|a| (a, v.derefs))
+    v.addr.map(|a| (a, v.derefs, v.cast, v.as_mut))
 }
 
 pub fn file(src: &str) -> Result<Value, String> {
@@ -463,8 +473,9 @@ pub fn file(src: &str) -> Result<Value, String> {
                         };
                         let lit = first_cast_literal(&func.block);
                         evals.push(json!({"name": ev, "vis": vis(&func.vis), "ret": ret,
-                                          "addr": lit.map(|l| int_json(l.0)).unwrap_or(json!(NONE)),
-                                          "derefs": lit.map(|l| l.1).unwrap_or(0),
+                                          "addr": lit.as_ref().map(|l| int_json(l.0)).unwrap_or(json!(NONE)),
+                                          "derefs": lit.as_ref().map(|l| l.1).unwrap_or(0),
+                                          "cast": lit.as_ref().map(|l| l.2.clone()).unwrap_or(json!({"k": "none"})),
                                           "unsafe": func.sig.unsafety.is_some()}));
                         top.push(json!({"kind": "accessor", "name": ev, "idx": idx}));
                         continue;
@@ -540,8 +551,10 @@ pub fn file(src: &str) -> Result<Value, String> {
                         ReturnType::Default => String::new(),
                         ReturnType::Type(_, t) => t.to_token_stream().to_string().replace(' ', ""),
                     };
-                    e["singleton"] = lit.map(|l| int_json(l.0)).unwrap_or(json!(NONE));
-                    e["singleton_derefs"] = json!(lit.map(|l| l.1).unwrap_or(0));
+                    e["singleton"] = lit.as_ref().map(|l| int_json(l.0)).unwrap_or(json!(NONE));
+                    e["singleton_derefs"] = json!(lit.as_ref().map(|l| l.1).unwrap_or(0));
+                    e["singleton_cast"] = lit.as_ref().map(|l| l.2.clone()).unwrap_or(json!({"k": "none"}));
+                    e["singleton_as_mut"] = json!(lit.as_ref().map(|l| l.3).unwrap_or(false));
                     e["singleton_vis"] = json!(vis(&fns[0].vis));
                     e["singleton_kind"] = json!(ret);
                     top.push(json!({"kind": "singleton", "name": self_ty, "idx": idx}));
